@@ -166,8 +166,7 @@ def awaited(body, call):
 def result_local(body, call):
     """local holding the call's value: the awaited value if the call creates a future that is awaited
     in this body, otherwise the call destination."""
-    ty = body.local_ty(call.dest[0])
-    if "Future" in ty or "{async" in ty or "impl " in ty or "Pin<" in ty or "{closure" in ty or "coroutine" in ty.lower():
+    if body.coroutine:
         aw = awaited(body, call)
         if aw:
             return aw[1], aw[0]
